@@ -391,7 +391,7 @@ def splitConv : Option (List (Nat × Nat) × List (Nat × Nat)) →
 
 theorem push_rev {α : Type} (a : Array α) (p : α) : (a.push p).toList.reverse = p :: a.toList.reverse := by simp
 
-theorem forListB_cons {α σ ρ : Type} (body : α → σ → R (RS.Step σ ρ)) (x : α) (xs : List α) (s : σ) :
+theorem wv_forListB_cons {α σ ρ : Type} (body : α → σ → R (RS.Step σ ρ)) (x : α) (xs : List α) (s : σ) :
     RS.forListB body (x :: xs) s = (body x s).bind fun r => match r with
       | .next s' => RS.forListB body xs s'
       | .brk s' => .ok (.done s')
@@ -405,7 +405,7 @@ theorem splitLoop_eq (x : β) (hx : LOK o c x) : ∀ (rs : List (Nat × Nat)) (z
     simp [RS.forListB, splitConv]
   | (s, e) :: rs, zr, or => by
     have ih := splitLoop_eq x hx rs
-    rw [forListB_cons, WM.splitRanges, GW.splitBody]
+    rw [wv_forListB_cons, WM.splitRanges, GW.splitBody]
     simp only []
     rw [hx.numBits]
     by_cases h1 : (o.toLay x).numBits < e
